@@ -502,6 +502,12 @@ class RaftNode(Entity):
         if self._state != RaftState.LEADER:
             return []
 
+        # A reply from an earlier term answers a request sent during a previous
+        # leadership stint; our log may have been rewritten since, so its
+        # match_index says nothing about the current log.
+        if term < self._current_term:
+            return []
+
         if follower is None:
             return []
 
